@@ -823,6 +823,40 @@ Definition sx_hmap (m : hmap) : sx :=
 Definition sx_headers (hs : list header) : sx :=
   L (map (fun kv => L [B (fst kv); L (map B (snd kv))]) hs).
 
+(* ====================================================================== *)
+(* what the reference server puts on the wire for a Connect error: the JSON  *)
+(* that connect-go's connectWireError / connectWireDetail /                  *)
+(* connectEndStreamMessage marshal to, as a value tree                       *)
+(* ====================================================================== *)
+(* connect.Code.String(): the 16 names, "code_<n>" otherwise *)
+Definition code_name (c : N) : bytes :=
+  if (1 <=? c) && (c <=? N.of_nat (length c13_code_names))
+  then nth (N.to_nat (c - 1)) c13_code_names []
+  else bs "code_" ++ dec_of_N c.
+
+(* an error detail: type name, value bytes, and the "debug" rendering when the type resolves
+   (protojson: carried by the case as a value tree) *)
+Definition wdetail := (bytes * bytes * option json)%type.
+Definition wire_detail (d : wdetail) : json :=
+  let '(ty, v, dbg) := d in
+  JObj ([(bs "type", JStr ty); (bs "value", JStr (b64_encode v))] ++
+        match dbg with Some j => [(bs "debug", j)] | None => [] end).
+
+(* message: omitempty; details: omitempty *)
+Definition wire_error (code : N) (msg : bytes) (details : list wdetail) : json :=
+  JObj ([(bs "code", JStr (code_name code))] ++
+        (if is_nil msg then [] else [(bs "message", JStr msg)]) ++
+        (if is_nil details then [] else [(bs "details", JArr (map wire_detail details))])).
+
+(* metadata: the response trailers as an http.Header (Header.Add of every value: canonical keys,
+   values appended), marshalled as a map (keys sorted); omitempty *)
+Definition sort_hmap (m : hmap) : hmap := fold_right insert_hdr [] m.
+Definition wire_metadata (trailers : list header) : list (bytes * json) :=
+  map (fun kv => (fst kv, JArr (map JStr (snd kv)))) (sort_hmap (to_map trailers)).
+Definition wire_end_stream (err : option (N * bytes * list wdetail)) (trailers : list header) : json :=
+  JObj ((match err with Some (c, m, ds) => [(bs "error", wire_error c m ds)] | None => [] end) ++
+        (if is_nil (wire_metadata trailers) then [] else [(bs "metadata", JObj (wire_metadata trailers))])).
+
 Definition un_header (s : sx) : option header :=
   match s with L [B n; L vs] => do vs <- un_list un_B vs; ret (n, vs) | _ => None end.
 Definition un_headers (s : sx) : option (list header) := un_listof un_header s.
@@ -967,6 +1001,45 @@ Definition run_c13_ces (args : list sx) : sx :=
   | [B _; t; I _] => do t <- un_json_opt t; ret (sx_fbs (examine_connect_end_stream t))
   | _ => None end).
 
+(* value trees printed the way the Go harness prints what json.Decoder reads *)
+Fixpoint sx_json (t : json) : sx :=
+  match t with
+  | JNull => L [I 0%Z]
+  | JBool b => L [I 1%Z; sx_bool b]
+  | JNum ok => L [I 2%Z; sx_bool ok]
+  | JStr s => L [I 3%Z; B s]
+  | JArr l => L [I 4%Z; L ((fix go (l : list json) : list sx :=
+                              match l with [] => [] | x :: r => sx_json x :: go r end) l)]
+  | JObj ms => L [I 5%Z; L ((fix go (l : list (bytes * json)) : list sx :=
+                               match l with [] => [] | (k, v) :: r => L [B k; sx_json v] :: go r end) ms)]
+  end.
+
+Definition un_wdetail (s : sx) : option wdetail :=
+  match s with
+  | L [B t; B v; d] => do d <- un_opt un_json d; ret (t, v, d)
+  | _ => None
+  end.
+
+(* c13.cerrrt: the body of the reference server's unary Connect error response, examined: must be silent.
+   code msg details(type value debug-tree?) text(Go side) digest(Go side) -> (tree, feedback) *)
+Definition run_c13_cerrrt (args : list sx) : sx :=
+  or_bad (match args with
+  | [I code; B msg; ds; B _; B _] =>
+    do ds <- un_listof un_wdetail ds;
+    let t := wire_error (Z.to_N code) msg ds in
+    ret (L [sx_json t; sx_fbs (examine_connect_error (Some t))])
+  | _ => None end).
+
+(* c13.cesrt: the reference server's Connect end-of-stream message for a streaming response.
+   has-error code msg details trailers text digest -> (tree, feedback) *)
+Definition run_c13_cesrt (args : list sx) : sx :=
+  or_bad (match args with
+  | [I he; I code; B msg; ds; trs; B _; B _] =>
+    do ds <- un_listof un_wdetail ds; do trs <- un_headers trs;
+    let t := wire_end_stream (if Z.eqb he 0 then None else Some (Z.to_N code, msg, ds)) trs in
+    ret (L [sx_json t; sx_fbs (examine_connect_end_stream (Some t))])
+  | _ => None end).
+
 (* c13.wire: ctype status body-text body-tree eos(opt text) eos-tree headers trailers hasData err table *)
 Definition run_c13_wire (args : list sx) : sx :=
   or_bad (match args with
@@ -996,5 +1069,7 @@ Definition c13_table : list (bytes * (list sx -> sx)) :=
     (bs "c13.grpcrt", run_c13_grpcrt);
     (bs "c13.cerr", run_c13_cerr);
     (bs "c13.ces", run_c13_ces);
+    (bs "c13.cerrrt", run_c13_cerrrt);
+    (bs "c13.cesrt", run_c13_cesrt);
     (bs "c13.wire", run_c13_wire);
     (bs "c13.nocrash", run_c13_nocrash) ].
